@@ -1,6 +1,267 @@
-(* C14 - placeholder while the model is being validated *)
-From Coq Require Import List ZArith Bool.
-From PV Require Import Base.Exn Model.ValidatorsBase Gen.Validators.
-Theorem C14_stub : Gen.Validators.raise_exception_cls = ValidatorExceptionC.
-Proof. reflexivity. Qed.
-Print Assumptions C14_stub.
+(* C14 - validators and convert_value decide exactly their documented predicate.
+   Property theorems only.  `gen_shapes` collects what translator/t_validators.py reads from the current
+   source (comparison operators and flag polarities, domain tests, the strip rule, loop shapes, every
+   try/except handler table, literal sets, the normalisation chain, REGEX_EMAIL as a regex AST) and is
+   regenerated on every run; `validate` / `convert` are the model instantiated with it.
+
+   Structure: (1) the regenerated shapes are good (boolean predicate, by computation);
+   (2) for EVERY good shape record, all oracles within their documented raise-sets, every validator tree and
+   every value the model returns what the specification (Spec/ValidatorsSpec.v, written from the property
+   text) demands - outside four exactly delimited regions, each of which is refuted by a witness that is
+   an open known finding on the real code; (3) what the specification means for each validator.          *)
+From Coq Require Import List ZArith Bool SpecFloat.
+From PV Require Import Base.Exn Model.ValidatorsBase Model.ValidatorsRegex Gen.Validators Model.Validators
+                       Spec.ValidatorsSpec Proofs.ValidatorsRegexProofs Proofs.ValidatorsPrims Proofs.ValidatorsGood
+                       Proofs.ValidatorsRefine.
+Import ListNotations.
+Open Scope Z_scope.
+
+Definition validate := Model.Validators.validate gen_shapes.
+Definition validate_param := Model.Validators.validate_param gen_shapes.
+Definition convert := convert_value gen_shapes.
+Notation VEC := ValidatorExceptionC.
+
+(* ---------- (1) translation obligation: the shapes of the current source are in the proved family ----- *)
+Theorem C14_shapes_good : shapes_good gen_shapes = true.
+Proof. vm_compute. reflexivity. Qed.
+Print Assumptions C14_shapes_good.
+
+(* ---------- (2) the model meets the specification ------------------------------------------------------- *)
+(* Full statement (FALSE, see the _refuted theorems):
+     forall O w v, oracles_ok O -> spec O w v <> SOut -> validate O w v = outcome_of (spec O w v).
+   Proved under the narrowest guard: `gaps O w v = []` - no NaN under Min/Max, no float under
+   IsEnum(IntEnum) that is infinite or whose truncation hits a member, no int beyond the float range under
+   DateTimeUnixTimestamp, met on the documented evaluation path through Composite / ForEach.
+   For all validator trees (any nesting), all values, all oracle behaviours within the raise-sets.        *)
+Theorem C14_validate_meets_spec_partial : forall O, oracles_ok O -> forall w v,
+  gaps O w v = [] -> spec O w v <> SOut -> validate O w v = outcome_of (spec O w v).
+Proof. intros O HO. exact (validate_refines_spec gen_shapes O C14_shapes_good HO). Qed.
+Print Assumptions C14_validate_meets_spec_partial.
+
+(* every rejection is a ValidatorException, whatever the stdlib oracles raise within their raise-sets *)
+Theorem C14_rejections_are_ValidatorExc_partial : forall O, oracles_ok O -> forall w v,
+  gaps O w v = [] -> spec O w v <> SOut ->
+  (exists r, validate O w v = Ok r) \/ validate O w v = Raise VEC.
+Proof.
+  intros O HO w v Hg Hs. rewrite (C14_validate_meets_spec_partial O HO w v Hg Hs).
+  destruct (spec O w v); simpl; eauto.
+Qed.
+Print Assumptions C14_rejections_are_ValidatorExc_partial.
+
+Theorem C14_validate_param_same : forall O w v, validate_param O w v = validate O w v.
+Proof. intros O w v. exact (validate_param_same gen_shapes O C14_shapes_good w v). Qed.
+Print Assumptions C14_validate_param_same.
+
+(* ---------- (3) Min / Max: all bounds, all numbers (ints, bools, every float incl. +-0.0 and +-inf) ------ *)
+(* sat_min b incl v is `v >= b` (resp. `v > b`) on the extended rationals (Spec/ValidatorsSpec.v) *)
+Theorem C14_min_exact_partial : forall O b incl v,
+  is_number v = true -> is_number b = true -> is_nan v = false -> is_nan b = false ->
+  validate O (WMin b incl) v = if sat_min b incl v then Ok v else Raise VEC.
+Proof. intros O. exact (min_exact gen_shapes O C14_shapes_good). Qed.
+Print Assumptions C14_min_exact_partial.
+
+Theorem C14_max_exact_partial : forall O b incl v,
+  is_number v = true -> is_number b = true -> is_nan v = false -> is_nan b = false ->
+  validate O (WMax b incl) v = if sat_max b incl v then Ok v else Raise VEC.
+Proof. intros O. exact (max_exact gen_shapes O C14_shapes_good). Qed.
+Print Assumptions C14_max_exact_partial.
+
+(* the boundary spelled out on ints: equal to the bound is accepted exactly with include_boundary *)
+Theorem C14_minmax_int_boundary : forall O b z incl,
+  (validate O (WMin (VInt b) incl) (VInt z) = if (if incl then b <=? z else b <? z) then Ok (VInt z) else Raise VEC) /\
+  (validate O (WMax (VInt b) incl) (VInt z) = if (if incl then z <=? b else z <? b) then Ok (VInt z) else Raise VEC).
+Proof.
+  intros O b z incl. split.
+  - rewrite C14_min_exact_partial by reflexivity. now rewrite sat_min_int.
+  - rewrite C14_max_exact_partial by reflexivity. now rewrite sat_max_int.
+Qed.
+Print Assumptions C14_minmax_int_boundary.
+
+(* finding C14-K8a: NaN satisfies no bound, yet it passes every Min and every Max (and a NaN bound lets
+   every number through) *)
+Theorem C14_minmax_nan_refuted : exists b incl v,
+  is_number v = true /\ is_number b = true /\ sat_min b incl v = false /\ sat_max b incl v = false /\
+  forall O, validate O (WMin b incl) v = Ok v /\ validate O (WMax b incl) v = Ok v.
+Proof.
+  exists (VInt 3), true, (VFloat S754_nan). repeat split; try reflexivity.
+Qed.
+Print Assumptions C14_minmax_nan_refuted.
+
+Theorem C14_minmax_nan_accepted_everywhere : forall O b incl v,
+  is_number v = true -> is_number b = true -> is_nan v || is_nan b = true ->
+  validate O (WMin b incl) v = Ok v /\ validate O (WMax b incl) v = Ok v.
+Proof.
+  intros O b incl v Nv Nb A. split.
+  - exact (min_nan_accepts gen_shapes O C14_shapes_good b incl v Nv Nb A).
+  - exact (max_nan_accepts gen_shapes O C14_shapes_good b incl v Nv Nb A).
+Qed.
+Print Assumptions C14_minmax_nan_accepted_everywhere.
+
+(* ---------- MinLength / MaxLength: every limit, every value, in particular length = limit ------------------ *)
+Theorem C14_minlen_exact : forall O n v,
+  validate O (WMinLen n) v = match py_len v with Some l => if n <=? l then Ok v else Raise VEC | None => Raise VEC end.
+Proof. intros O. exact (minlen_exact gen_shapes O C14_shapes_good). Qed.
+Print Assumptions C14_minlen_exact.
+
+Theorem C14_maxlen_exact : forall O n v,
+  validate O (WMaxLen n) v = match py_len v with Some l => if l <=? n then Ok v else Raise VEC | None => Raise VEC end.
+Proof. intros O. exact (maxlen_exact gen_shapes O C14_shapes_good). Qed.
+Print Assumptions C14_maxlen_exact.
+
+(* ---------- NotEmpty ------------------------------------------------------------------------------------------- *)
+Theorem C14_notempty_str : forall O strip s,
+  validate O (WNotEmpty strip) (VStr s) = (if all_ws s then Raise VEC else Ok (if strip then VStr (py_strip s) else VStr s))
+  /\ is_strip_of s (py_strip s).
+Proof.
+  intros O strip s. split; [exact (notempty_str gen_shapes O C14_shapes_good strip s) | apply py_strip_is_strip].
+Qed.
+Print Assumptions C14_notempty_str.
+
+Theorem C14_notempty_other : forall O strip v, is_str v = false ->
+  validate O (WNotEmpty strip) v =
+  if is_sequence v then match py_len v with Some l => if l =? 0 then Raise VEC else Ok v | None => Raise VEC end
+  else Raise VEC.
+Proof. intros O. exact (notempty_other gen_shapes O C14_shapes_good). Qed.
+Print Assumptions C14_notempty_other.
+
+(* ---------- Email: REGEX_EMAIL decides local@domain.tld, for all strings -------------------------------------- *)
+Theorem C14_email_regex_iff_pred : forall O s,
+  (validate O (WEmail None PPId) (VStr s) = Ok (VStr s) <-> email_pred s) /\
+  (validate O (WEmail None PPId) (VStr s) = Raise VEC <-> ~ email_pred s).
+Proof.
+  intros O s. unfold validate. rewrite (email_default_str gen_shapes O C14_shapes_good PPId s).
+  rewrite <- email_predb_iff. destruct (email_predb s); simpl; split; split; congruence.
+Qed.
+Print Assumptions C14_email_regex_iff_pred.
+
+(* the matcher decides the regular language, for every expression of the supported syntax and every string *)
+Theorem C14_regex_matcher_correct : forall r s, re_fullmatch r s = true <-> lang r s [].
+Proof. intros r s. apply fullmatch_iff. Qed.
+Print Assumptions C14_regex_matcher_correct.
+
+(* MatchPattern: accepted exactly when some substring is in the language of the pattern *)
+Theorem C14_matchpattern_exact : forall O r s,
+  validate O (WMatch r) (VStr s) = (if re_search r s then Ok (VStr s) else Raise VEC) /\
+  (re_search r s = true <-> exists a m b, s = a ++ m ++ b /\ lang r m b).
+Proof.
+  intros O r s. split; [exact (match_str gen_shapes O C14_shapes_good r s) | apply search_iff].
+Qed.
+Print Assumptions C14_matchpattern_exact.
+
+(* ---------- Composite / ForEach: all child lists, all item lists, any nesting ------------------------------- *)
+Theorem C14_composite : forall O cs v,
+  (validate O (WComposite cs) v = Ok v <-> Forall (fun c => exists r, validate O c v = Ok r) cs) /\
+  ((exists e, validate O (WComposite cs) v = Raise e) \/ validate O (WComposite cs) v = Ok v) /\
+  (forall e, validate O (WComposite cs) v = Raise e ->
+     exists pre c post, cs = pre ++ c :: post /\ validate O c v = Raise e /\
+                        Forall (fun c' => exists r, validate O c' v = Ok r) pre).
+Proof.
+  intros O cs v. split; [|split].
+  - exact (composite_ok_iff gen_shapes O C14_shapes_good cs v).
+  - exact (composite_result gen_shapes O C14_shapes_good cs v).
+  - exact (composite_first_failure gen_shapes O C14_shapes_good cs v).
+Qed.
+Print Assumptions C14_composite.
+
+(* every item goes through every child in order, each child receiving what the previous one returned *)
+Theorem C14_foreach : forall O cs items rs,
+  validate O (WForEach cs) (VList items) = Ok (VList rs) <->
+  Forall2 (fun it r => run_children (validate O) true cs it = Ok r) items rs.
+Proof. intros O. exact (foreach_ok_iff gen_shapes O C14_shapes_good). Qed.
+Print Assumptions C14_foreach.
+
+(* ---------- IsEnum / DateTimeUnixTimestamp: the remaining gaps, each with its witness ------------------------ *)
+(* finding C14-K8b: 1.5 is no member of {1, 2} but is accepted as member 1 *)
+Theorem C14_isenum_fractional_refuted : exists ms v, forall O,
+  spec O (WIsEnum ms true true true) v = SReject /\ validate O (WIsEnum ms true true true) v = Ok (VOpq K_ENUM [0]).
+Proof.
+  exists [VInt 1; VInt 2], (VFloat (S754_finite false 6755399441055744 (-52))). intro O. split; reflexivity.
+Qed.
+Print Assumptions C14_isenum_fractional_refuted.
+
+(* finding C14-K8c: float('inf') leaves as OverflowError *)
+Theorem C14_isenum_inf_refuted : exists ms v, forall O,
+  spec O (WIsEnum ms true true true) v = SReject /\ validate O (WIsEnum ms true true true) v = Raise OverflowErrorC.
+Proof.
+  exists [VInt 1; VInt 2], (VFloat (S754_infinity false)). intro O. split; reflexivity.
+Qed.
+Print Assumptions C14_isenum_inf_refuted.
+
+(* finding C14-K8d: an int beyond the float range leaves as OverflowError *)
+Theorem C14_unix_int_overflow_refuted : exists v, forall O,
+  spec O WUnix v = SReject /\ validate O WUnix v = Raise OverflowErrorC.
+Proof.
+  exists (VInt (2 ^ 1024)). intro O. split; vm_compute; reflexivity.
+Qed.
+Print Assumptions C14_unix_int_overflow_refuted.
+
+(* ---------- convert_value ------------------------------------------------------------------------------------------ *)
+Theorem C14_convert_meets_spec : forall O, oracles_ok O -> forall v t, convert O v t = spec_convert O v t.
+Proof. intros O HO. exact (convert_refines_spec gen_shapes O C14_shapes_good HO). Qed.
+Print Assumptions C14_convert_meets_spec.
+
+(* for any input and any target: an instance of the target type, or ConversionError *)
+Theorem C14_convert_type_or_ConversionErr : forall O, oracles_ok O -> forall v t,
+  match convert O v t with Ok r => isinstance_t r t = true | Raise e => e = ConversionErrorC end.
+Proof. intros O HO. exact (convert_typed gen_shapes O C14_shapes_good HO). Qed.
+Print Assumptions C14_convert_type_or_ConversionErr.
+
+(* convert_value inverts str() on every int (the decimal printer and the parser are inverse) ... *)
+Theorem C14_convert_inverts_str_int : forall O, oracles_ok O -> forall z,
+  convert O (VStr (py_str O (VInt z))) TInt = Ok (VInt z).
+Proof. intros O HO. exact (convert_inverts_str_int gen_shapes O C14_shapes_good HO). Qed.
+Print Assumptions C14_convert_inverts_str_int.
+
+(* ... and on both bools *)
+Theorem C14_convert_inverts_str_bool : forall O, oracles_ok O -> forall b,
+  convert O (VStr (py_str O (VBool b))) TBool = Ok (VBool b).
+Proof. intros O HO. exact (convert_inverts_str_bool gen_shapes O C14_shapes_good HO). Qed.
+Print Assumptions C14_convert_inverts_str_bool.
+
+(* the bool branch: exactly 'true' / '1' and 'false' / '0' after str().strip().lower() *)
+Theorem C14_convert_bool_table : forall O, oracles_ok O -> forall v, isinstance_t v TBool = false ->
+  let s := py_lower O (py_strip (py_str O v)) in
+  convert O v TBool =
+    if zlist_eqb s S_true || zlist_eqb s [49] then Ok (VBool true)
+    else if zlist_eqb s S_false || zlist_eqb s [48] then Ok (VBool false)
+    else Raise ConversionErrorC.
+Proof. intros O HO. exact (convert_bool_table gen_shapes O C14_shapes_good HO). Qed.
+Print Assumptions C14_convert_bool_table.
+
+(* ---------- non-vacuity ---------------------------------------------------------------------------------------------- *)
+(* an oracle record within the raise-sets: every stdlib call fails with its documented exception *)
+Definition O_fail : oracles := {|
+  o_str := fun _ => []; o_lower := fun s => s; o_upper := fun s => s;
+  o_int_of_str := fun _ => Raise ValueErrorC; o_int_of_bytes := fun _ => Raise ValueErrorC;
+  o_float_of_str := fun _ => Raise ValueErrorC; o_uuid := fun _ => Raise ValueErrorC;
+  o_fromiso := fun _ => Raise TypeErrorC; o_epoch_plus := fun _ => Raise OverflowErrorC |}.
+
+Example C14_oracles_ok_inhabited : oracles_ok O_fail.
+Proof. constructor; intros; reflexivity. Qed.
+
+(* a nested case inside the guard of the _partial theorems, accepted and converted *)
+Example C14_example_accept :
+  let w := WForEach [WComposite [WMin (VInt 3) true; WMax (VInt 7) false]; WIsEnum [VInt 5; VInt 6] true true true] in
+  let v := VList [VInt 5; VFloat (S754_finite false 6755399441055744 (-50)); VInt 6] in
+  gaps O_fail w v = [] /\ spec O_fail w v = SAccept (VList [VOpq K_ENUM [0]; VOpq K_ENUM [1]; VOpq K_ENUM [1]]) /\
+  validate O_fail w v = Ok (VList [VOpq K_ENUM [0]; VOpq K_ENUM [1]; VOpq K_ENUM [1]]).
+Proof. cbn zeta. repeat split; vm_compute; reflexivity. Qed.
+
+(* ... and rejected at the boundary: 7 is not < 7 *)
+Example C14_example_reject :
+  let w := WForEach [WComposite [WMin (VInt 3) true; WMax (VInt 7) false]] in
+  gaps O_fail w (VTuple [VInt 3; VInt 7]) = [] /\ spec O_fail w (VTuple [VInt 3; VInt 7]) = SReject /\
+  validate O_fail w (VTuple [VInt 3; VInt 7]) = Raise VEC.
+Proof. cbn zeta. repeat split; vm_compute; reflexivity. Qed.
+
+(* the false alarm of round 1: U+001F is whitespace for str.strip() but int() does not skip it *)
+Example C14_int_does_not_skip_separators :
+  py_strip [31; 50] = [50] /\ num_strip [31; 50] = [31; 50] /\ parse_dec (num_strip [31; 50]) = None /\
+  parse_dec (num_strip [133; 50; 160]) = Some 2.
+Proof. repeat split; reflexivity. Qed.
+
+Example C14_email_examples :
+  email_pred [97; 64; 98; 46; 99] /\ ~ email_pred [97; 64; 98; 46; 99; 10] /\ ~ email_pred [97; 64; 98].
+Proof.
+  rewrite <- !email_predb_iff. repeat split; try reflexivity; vm_compute; congruence.
+Qed.
